@@ -108,7 +108,16 @@ func (x *g) fieldName() string {
 			ws[i] = x.pick(fieldWords)
 		}
 		var name string
-		switch x.r.Intn(5) {
+		switch x.r.Intn(6) {
+		case 5: // lower_snake with a digit at the end of a segment or a one-letter segment (s3_bucket, ipv4_prefix, x_axis)
+			ws[0] = ws[0] + fmt.Sprint(1+x.r.Intn(9))
+			if x.r.P(30) {
+				ws[0] = ws[0][:1]
+			}
+			if len(ws) == 1 {
+				ws = append(ws, x.pick(fieldWords))
+			}
+			name = strings.Join(ws, "_")
 		case 0, 1: // UpperCamel
 			for _, w := range ws {
 				name += title(w)
@@ -545,7 +554,7 @@ func GenCase(r *driver.Rng, opt Options) (*desc.Case, *Meta) {
 	}
 	for i := 0; i < nEmb; i++ {
 		name := x.msgName()
-		m, info := x.genMessage(name, x.nonEmptyOnly(leaves), nil, 0)
+		m, info := x.genMessage(name, leaves, nil, 0)
 		if len(m.Fields) == 0 {
 			f := x.scalarField(-1)
 			f.Card = "single"
